@@ -556,10 +556,12 @@ class Substance:
         if not isinstance(other, Substance):
             return False
         return self.name == other.name and self._type == other._type and self.mol_weight == other.mol_weight \
-            and self.density == other.density and self.concentration == other.concentration
+            and self.density == other.density and self.concentration == other.concentration \
+            and self.specific_activity == other.specific_activity
 
     def __hash__(self):
-        return hash((self.name, self._type, self.mol_weight, self.density, self.concentration))
+        return hash((self.name, self._type, self.mol_weight, self.density, self.concentration,
+                     self.specific_activity))
 
     @staticmethod
     def solid(name: str, mol_weight: float, molecule=None) -> Substance:
